@@ -398,8 +398,8 @@ def run(tier, seed):
     evals = 0
     cov = {}
     keys = set()
-    for mode in (("export", "pttempo", "export_direct") if tier == "quick" else
-                 ("export", "pttempo", "export_direct", "export8", "export_over")):
+    for mode in (("export", "pttempo", "export_direct", "export_nodt") if tier == "quick" else
+                 ("export", "pttempo", "export_direct", "export_nodt", "export8", "export_over")):
         h = hard_part(mode, None)
         o = orderly_part(mode)
         evals += h["L"] + 1 + h["fileops"] + 1 + o["points"]
